@@ -54,7 +54,7 @@ def dedupSorted : List Key → List Key
   | [a] => [a]
   | a :: b :: rest => if a = b then dedupSorted (b :: rest) else a :: dedupSorted (b :: rest)
 
-def universe (ops : List Op) : List Key :=
+def keyUniverse (ops : List Op) : List Key :=
   let ks := ops.flatMap fun
     | .cmd (.insert k _ _) => [k]
     | .cmd (.delete k) => [k]
@@ -137,7 +137,7 @@ def runEngine {σ} (E : Engine σ) (init : σ) (ops : List Op) : String :=
   match ops.foldlM (stepOp E) ({ st := init } : Run σ) >>= flush E with
   | none => "panic"
   | some r =>
-    let kv := (universe ops).filterMap fun k => (E.get r.st k).map fun v => (k, v)
+    let kv := (keyUniverse ops).filterMap fun k => (E.get r.st k).map fun v => (k, v)
     showSection r.flags r.reads kv (E.len r.st) (E.la r.st)
 
 /-! ### branch tags -/
@@ -252,7 +252,7 @@ def refOp (emptyPrefixWild : Bool) (r : RefRun) : Op → RefRun
 
 def refSection (ops : List Op) (wild : Bool) : RefRun × String :=
   let r := ops.foldl (refOp wild) {}
-  let kv := (universe ops).filterMap fun k => (aget r.store k).map fun v => (k, v)
+  let kv := (keyUniverse ops).filterMap fun k => (aget r.store k).map fun v => (k, v)
   (r, showSection r.flags r.reads kv r.store.length r.last)
 
 /-- Replace empty-prefix scan results in an implementation section by `S*` (C22 leaves them to C25). -/
